@@ -80,7 +80,13 @@ def run_scenario(chk, sc, cfgseed, how, field, axes, scale, ext=6, ext_cut=False
         with shims.pool_shim(shims.Scheduler(default="random", rng=rng)):
             if how == "api-call-limit":
                 with core.quiet():
-                    got = volume_integral(PlotfileCooker(src, ghost=True), field, limit_level=lim, use_volfrac=vf)
+                    pck = PlotfileCooker(src, ghost=True)
+                    nlev = len(sc["mesh"])
+                    if cfgseed % 2 == 0 and nlev > 1:
+                        # a HISTORY on one reader: an earlier integral with another level limit (and the other volume-fraction
+                        # setting); what it leaves on the object must not reach the integral that is judged
+                        volume_integral(pck, field, limit_level=(lim + 1) % nlev, use_volfrac=not vf)
+                    got = volume_integral(pck, field, limit_level=lim, use_volfrac=vf)
             elif how == "api-reader-limit":
                 with core.quiet():
                     got = volume_integral(PlotfileCooker(src, limit_level=lim, ghost=True), field, use_volfrac=vf)
